@@ -3,7 +3,7 @@
 complementing the hand-written and sub-agent changes): every mutant that compiles and passes the
 test suite is checked with the properties its enclosing function is tagged with; the ones no check
 reports are printed for triage (equivalent mutant, behaviour no property speaks about, or a hole).
-usage: automut.py <file.go> [--max N] [--jobs J] [--func NAME]"""
+usage: automut.py <file.go> [--max N] [--jobs J] [--func NAME] [--uncontracted] [--calls]"""
 import re, sys, os, subprocess, tempfile, shutil, json, concurrent.futures
 
 ENV = dict(os.environ, GOFLAGS="-mod=mod", GOPROXY="off", GOSUMDB="off", GOTOOLCHAIN="local")
@@ -49,6 +49,11 @@ def mutants(path, only_func):
         fn = enclosing(lines, i)
         if fn is None or (only_func and fn != only_func):
             continue
+        if "--calls" in sys.argv:
+            # second operator family: a forgotten step - a statement that is just a call (also defer/go) is dropped
+            if re.match(r"^\s*(defer |go )?[\w.]+(\([^()]*\))?\.?[\w.]*\(.*\)$", l) and not s.startswith(("return", "if", "for", "switch", "case", "func", "//")) and not re.match(r"^\s*c\.(reset|Close)\(\)$", l):
+                out.append((i, fn, l, re.match(r"^\s*", l).group(0) + "_ = 0 // deleted: " + s))
+            continue
         for pat, rep in OPS:
             for m in re.finditer(pat, l):
                 if '"' in l[:m.start()] and l[:m.start()].count('"') % 2 == 1:
@@ -85,6 +90,19 @@ def run_one(args):
     finally:
         shutil.rmtree(tmp, ignore_errors=True)
 
+# functions without a contract of their own (inlined into their callers, or behind a stub / a bounded
+# stand-in): the properties whose checks should notice a change in them (--uncontracted)
+FALLBACK = {
+    "(*Conn).init": ["C10", "C19"], "(*Conn).setSession": ["C08", "C20"], "(*Conn).TLSConnectionState": ["C09", "C12"],
+    "(*Conn).authAllowed": ["C09", "C12"], "decodeXtext": ["C11", "C14"], "decodeUTF8AddrXtext": ["C11", "C14"],
+    "decodeSASLResponse": ["C09"], "dataErrorToStatus": ["C04", "C17", "C13"], "(*Conn).Reject": ["C04", "C08"],
+    "NewClientLMTP": ["C18"], "SendMail": ["C10", "C16"], "SendMailTLS": ["C10", "C16"], "(*Client).Extension": ["C15", "C10"],
+    "(*Client).SupportsAuth": ["C15", "C09"], "(*Client).MaxMessageSize": ["C15"], "parseEnhancedCode": ["C17"], "toSMTPErr": ["C17"],
+    "(*Server).ListenAndServe": ["C20"], "(*Server).ListenAndServeTLS": ["C20"], "(*Server).network": ["C20"],
+    "cutPrefixFold": ["C11", "C19"], "parseCmd": ["C19", "C04"], "(*parser).peekByte": ["C11"], "(*parser).readByte": ["C11"],
+    "(*parser).acceptByte": ["C11"], "(*parser).expectByte": ["C11"], "(*SMTPError).Error": ["C17"], "(*SMTPError).Temporary": ["C17"],
+}
+
 def main():
     rel = sys.argv[1]
     mx = int(sys.argv[sys.argv.index("--max") + 1]) if "--max" in sys.argv else 10**9
@@ -96,6 +114,8 @@ def main():
     work = []
     for m in ms:
         props = fp.get(m[1])
+        if "--uncontracted" in sys.argv:
+            props = None if props else FALLBACK.get(m[1])
         if not props:
             continue
         work.append((path, rel, lines, m, props))
